@@ -15,6 +15,7 @@ import (
 	"bytes"
 	"encoding/json"
 	"fmt"
+	"io"
 	"math"
 	"os"
 	"path/filepath"
@@ -55,6 +56,14 @@ type Case struct {
 type checker struct {
 	c   *core.Ctx
 	dir string // scratch directory of the file-system sub-scope (created lazily)
+	n   int    // cases seen (the reader-variant re-reads run on a fixed stride of them)
+}
+
+// readerVariants: every 16th writer→reader case (deterministic stride; the re-reads multiply the
+// read cost by eight) is also read through the other io.Reader kinds and with CRLF line endings.
+func (k *checker) readerVariants() bool {
+	k.n++
+	return k.n%16 == 0
 }
 
 func (k *checker) fail(site, clause, class, detail string, cs Case) {
@@ -236,6 +245,12 @@ func (k *checker) listCase(scope string, list []MeshDesc) {
 			detail += " [reference reader on the text: " + writerWhy + "]"
 		}
 		k.fail(site, clause, listClass(list, at), detail+" "+what+"\n"+text, cs)
+	}
+	if k.readerVariants() {
+		if why := readerAgreement(text, back); why != "" {
+			outcome = "mismatch"
+			k.fail("obj.ReadMesh", "the loaded meshes do not depend on how the io.Reader delivers the text (or on CRLF line endings)", listClass(list, len(list)-1)+"/reader-variant", why+" "+what, cs)
+		}
 	}
 
 	// groups, ignoring groups/meshes without triangles (an OBJ group without faces carries nothing)
@@ -1164,4 +1179,40 @@ func replay(c *core.Ctx) {
 	default:
 		c.HarnessError("unknown case kind %q", cs.Kind)
 	}
+}
+
+// readerAgreement re-reads the text through every other kind / behaviour of io.Reader, and once with
+// CRLF line endings, and demands the same meshes (names, bit-exact public-accessor digests).
+func readerAgreement(text string, ref []obj.ObjMesh) string {
+	digest := func(ms []obj.ObjMesh) string {
+		var sb strings.Builder
+		for _, m := range ms {
+			fmt.Fprintf(&sb, "%q:%x;", m.Name, meshlib.QuickHash(m.Mesh))
+		}
+		return sb.String()
+	}
+	want := digest(ref)
+	try := func(name string, r io.Reader) string {
+		var got []obj.ObjMesh
+		var err error
+		o := core.Guard(func() { got, _, err = obj.ReadMesh(r) })
+		switch {
+		case o.Panicked:
+			return fmt.Sprintf("through %s the reader panicked: %s", name, o.Msg)
+		case err != nil:
+			return fmt.Sprintf("through %s the reader failed: %v", name, err)
+		case digest(got) != want:
+			return fmt.Sprintf("through %s the reader returned different meshes (%d groups vs %d)", name, len(got), len(ref))
+		}
+		return ""
+	}
+	for _, rv := range core.ReaderVariants[1:] {
+		if why := try(rv.Name, rv.New([]byte(text))); why != "" {
+			return why
+		}
+	}
+	if why := try("bytes.Reader with CRLF line endings", strings.NewReader(strings.ReplaceAll(text, "\n", "\r\n"))); why != "" {
+		return why
+	}
+	return ""
 }
